@@ -730,7 +730,16 @@ pub fn run(ctx: &mut Ctx) {
                         if r.chance(1, 3) {
                             body.extend(["loop".to_string(), "end".into()]);
                         }
-                        builts.push(Built { uid: u, params: vec![], results: vec![], locals: vec![], body, name: Some(format!("i{old}")) });
+                        // the replacement may declare locals of its own, runs of one type included
+                        let mut locals: Vec<usize> = vec![];
+                        let mut last = r.below(TYS.len());
+                        for _ in 0..r.below(4) {
+                            if !r.chance(2, 3) {
+                                last = r.below(TYS.len());
+                            }
+                            locals.push(last);
+                        }
+                        builts.push(Built { uid: u, params: vec![], results: vec![], locals, body, name: Some(format!("i{old}")) });
                         plan.push(A::Replace(builts.len() - 1, h, base_imp_pos[&h]));
                         // the parsed name of the import goes with the import entry
                         base_fnames.retain(|(x, _)| *x != old);
@@ -747,7 +756,16 @@ pub fn run(ctx: &mut Ctx) {
                         .cloned()
                         .filter(|h| hs[*h].imp && hs[*h].id != u32::MAX && (0..hs.len()).any(|d| hs[d].sp == Sp::F && hs[d].deleted && hs[d].imp && hs[d].id < hs[*h].id))
                         .collect();
-                    let h = if !behind.is_empty() && r.chance(2, 3) { *r.pick(&behind) } else { *r.pick(&fs) };
+                    // naming an import added in this history, with further imports added behind it: until the next encode its id lies
+                    // behind the local functions, and its rank among the function imports is not its id (finding F38)
+                    let added_imps: Vec<usize> = fs.iter().cloned().filter(|h| hs[*h].imp && hs[*h].id == u32::MAX).collect();
+                    let h = if added_imps.len() >= 2 && r.chance(1, 2) {
+                        added_imps[r.below(added_imps.len() - 1)]
+                    } else if !behind.is_empty() && r.chance(2, 3) {
+                        *r.pick(&behind)
+                    } else {
+                        *r.pick(&fs)
+                    };
                     let nm = format!("renamed{}", renames.len());
                     renames.push((h, nm.clone()));
                     plan.push(A::Rename(h, nm));
@@ -852,6 +870,10 @@ pub fn run(ctx: &mut Ctx) {
                     A::Replace(b, _, imp_id) => {
                         let b = &builts[*b];
                         let mut fb = FunctionBuilder::new(&[], &[]);
+                        for (k, l) in b.locals.iter().enumerate() {
+                            let id = fb.add_local(TYS[*l].dt.clone());
+                            assert_eq!(*id as usize, k, "harness: local index");
+                        }
                         for t in &b.body {
                             fb.inject(op_of_tok(t));
                         }
@@ -918,16 +940,8 @@ pub fn run(ctx: &mut Ctx) {
         let out = match res {
             Err(p) => {
                 ctx.impl_line(&format!("adds {case} PANIC"));
-                // set_fn_name on an import that was added after parsing asserts (F28): loud, not a violation
-                // (F28) set_fn_name classifies its argument by `id < imports.num_funcs`, which counts imports added later:
-                // after add_import_func it asserts on some local functions and on the added import - loudly
-                let f28 = plan.iter().any(|a| matches!(a, A::Rename(..))) && plan.iter().any(|a| matches!(a, A::ImpFunc(_)));
-                if f28 && (p.contains("set_imported_fn_name") || p.contains("set_local_fn_name")) {
-                    ctx.count("panic-set_fn_name-on-added-import");
-                    ctx.ok(fam, case);
-                } else {
-                    ctx.fail(fam, case, "C12,C30,C29", "unexpected-panic", &p);
-                }
+                // (before the repair of F38, `set_fn_name` tripped an assertion on some ids after `add_import_func`: finding F28, gone with it)
+                ctx.fail(fam, case, "C12,C30,C29", "unexpected-panic", &p);
                 continue;
             }
             Ok(b) => b,
@@ -1041,13 +1055,14 @@ pub fn run(ctx: &mut Ctx) {
                 fails.push(("C12", "built-function-wrong-signature".into(), format!("want {want_p:?}->{want_r:?} got {ty:?}")));
             }
             let want_l: Vec<String> = b.locals.iter().map(|l| format!("t{}", TYS[*l].code)).collect();
+            let is_replacement = plan.iter().any(|a| matches!(a, A::Replace(k, _, _) if builts[*k].uid == b.uid));
             if *locals != want_l {
-                fails.push(("C12,C14", "built-function-wrong-locals".into(), format!("want {want_l:?} got {locals:?}")));
+                fails.push((if is_replacement { "C10,C12,C14" } else { "C12,C14" }, "built-function-wrong-locals".into(), format!("want {want_l:?} got {locals:?}")));
             }
             let mut want_b = b.body.clone();
             want_b.push("end".into());
             if *toks != want_b {
-                fails.push(("C12", "built-function-wrong-body".into(), format!("want {want_b:?} got {toks:?}")));
+                fails.push((if is_replacement { "C10,C12" } else { "C12" }, "built-function-wrong-body".into(), format!("want {want_b:?} got {toks:?}")));
             }
             let got_name = o.fnames.get(&(pos as u32));
             let renamed = renames.iter().rev().find(|(h, _)| hs[*h].uid == b.uid).map(|x| &x.1);
